@@ -789,6 +789,7 @@ func newMapDecoder(decoder *encoding.DecodeAssembler[Value, any]) encoding.Decod
 				}), nil
 			} else if typ.Elem().Kind() == reflect.Struct {
 				var decoders []encoding.Decoder[Map, unsafe.Pointer]
+				var rest []encoding.Decoder[Map, unsafe.Pointer]
 				for i := 0; i < typ.Elem().NumField(); i++ {
 					field := typ.Elem().Field(i)
 					meta := getMapMeta(field)
@@ -821,8 +822,13 @@ func newMapDecoder(decoder *encoding.DecodeAssembler[Value, any]) encoding.Decod
 						})
 					}
 
-					decoders = append(decoders, dec)
+					if meta.inline && field.Type.Kind() == reflect.Map {
+						rest = append(rest, dec)
+					} else {
+						decoders = append(decoders, dec)
+					}
 				}
+				decoders = append(decoders, rest...)
 
 				return encoding.DecodeFunc(func(source Value, target unsafe.Pointer) error {
 					if source == nil {
